@@ -550,10 +550,17 @@ fn main() {
                 }
                 let mut first = String::new();
                 for i in 0..k {
-                    let ra = eval_form(&mut va, &form_a);
+                    // a quarter of the sessions run the failing form through the sliced entry point
+                    // (prepare_eval + run_count with a small budget), so that the failure falls into a later slice
+                    let ra = if case % 4 == 1 {
+                        let b = 3 + (case % 17);
+                        run_sliced(&mut va, &form_a, &mut || b, 2_000_000).0
+                    } else {
+                        render(&eval_form(&mut va, &form_a))
+                    };
                     let _ = eval_form(&mut vb, &form_b);
                     if i == 0 {
-                        first = render(&ra);
+                        first = ra.clone();
                     }
                     // registers right after the failure vs the model of the error epilogue
                     if (i == 0 || i == k - 1) && class != "syntax" && class != "parse-incomplete" {
@@ -571,10 +578,12 @@ fn main() {
                 probes.push("eff".into());
                 probes.push(g.int_expr(&sc, 2).render());
                 probes.push(g.list_expr(&sc, 2).render());
-                probes.push("(deep 3 (quote x))".into()); // a failing probe: compares stack traces
-                probes.push("(deep 5 7)".into());
+                // re-entry of the continuation stored before the failures — BEFORE the failing probe, so that the
+                // twin VM has seen no failure at all when it re-enters
                 probes.push("(begin (kk0 41) 'never)".into());
                 probes.push("r0".into());
+                probes.push("(deep 3 (quote x))".into()); // a failing probe: compares stack traces
+                probes.push("(deep 5 7)".into());
                 let mut oa = vec![];
                 let mut ob = vec![];
                 for p in &probes {
